@@ -11,7 +11,7 @@ import sys
 from . import _common
 
 AREA = 'ec'
-MODULES = ['_ec_ws', '_ed25519', '_ed448', '_curve25519', '_curve448', '_modexp', '_strxor', '_cpuid_c', '_SHA256', '_SHA512', '_keccak', '_BLAKE2s']
+MODULES = None      # rebuild every extension module of setup.py (about 3 s): nothing stale can be reached indirectly
 
 LIBNAME = {'P-192': 'P-192', 'P-224': 'P-224', 'P-256': 'P-256', 'P-384': 'P-384', 'P-521': 'P-521', 'Ed25519': 'Ed25519', 'Ed448': 'Ed448',
            'Curve25519': 'Curve25519', 'Curve448': 'Curve448'}
